@@ -138,10 +138,20 @@ def check_doc(ctx, schema, text, origin, rng, g_valid=None):
 
 
 def run_shard(ctx):
-    schema = rich()
-    vocab = docmut.vocabulary(schema)
+    from .c02 import generated_schema
+    rich_schema = rich()
+    vocabs = {id(rich_schema): docmut.vocabulary(rich_schema)}
     rng = ctx.rng
     for k in range(ctx.n(30000, 500000)):
+        schema = rich_schema
+        if k % 4 == 3:
+            gs = generated_schema((ctx.seed * 7919 + ctx.shard * 104729 + k) % 4000)
+            if gs is not None:
+                schema = gs
+                ctx.count("documents_on_generated_schemas")
+        if id(schema) not in vocabs:
+            vocabs[id(schema)] = docmut.vocabulary(schema)
+        vocab = vocabs[id(schema)]
         g = DocGen(schema, rng, ops=('query', 'query', 'mutation'), p_var=0.45, p_boundary=0.25)
         text = g.gen()
         origin = "G-doc"
@@ -160,7 +170,7 @@ def run_shard(ctx):
                     origin = "+".join(names)
             except GraphQLError:
                 pass
-        elif m < 0.7:
+        elif m < 0.7 and schema is rich_schema:
             text = src.gen_source(rng, 'exec', names=['me', 'users', 'id', 'name', 'echo', 'i', 'l', 'o', 'req', 'User', 'Query', 'Filter', 'friends', 'first',
                                                       'best', 'v0', 'Int', 'nn', 'pets', 'Dog', 'Pet', 'barks'], max_depth=3, hostile=0.0, style='plain', keywords=0.0)
             origin = "G-src"
